@@ -9,7 +9,7 @@ from concurrent.futures import ThreadPoolExecutor
 ASSUME = ["certificates are generated with OpenSSL (harness/certgen.c) from the abstract values; the mapping abstract field -> DER is trusted",
           "success of the API = return code >= 0 and every presented certificate PS_CERT_AUTH_PASS (the function records soft failures in authStatus while returning 0)",
           "completeness (Valid => accepted) is claimed for chains presented leaf-first, SHA-256 signatures, CA certificates with keyUsage, consistent key identifiers (Supported in MxX509.tla)",
-          "universe: 7 chain shapes x 5 anchor sets x two single-field deviations at any of 4 positions (77k abstract scenarios), materialised with RSA-2048 keys; the scenarios with at most one deviation plus a sample of the pairs also with P-256 and with Ed25519 keys throughout",
+          "universe: 7 chain shapes x 5 anchor sets x two single-field deviations at any of 4 positions (77k abstract scenarios), materialised with RSA-2048 keys; the scenarios with at most one deviation plus a sample of the pairs also with P-256 keys, with Ed25519 keys and with RSASSA-PSS signatures throughout",
           "revocation (MxCrl): a universe of 7 certificates (trust anchor, an impostor of the same name, an intermediate, leaves of each) and 6 CRLs (authentic, empty, expired, forged, of the intermediate); histories of CRL loads (authenticated against the trust anchor or not at all) and chain validations against the process-wide CRL cache; an expired CRL decides nothing (the code's reading)"]
 
 def crl_part(prop, tier, seed, bdir, wd, violations):
@@ -119,12 +119,12 @@ def run(tier, seed):
     # the scenarios with at most one deviation and a sample of the pairs; digest deviations (md5 / sha1) have no meaning there
     noalg = lambda sc: all(c["alg"] == "sha256" for c in sc[0] + sc[1])
     famsc = [s for s in single if noalg(s)] + [s for s in rest if noalg(s)][:(1500 if tier == "quick" else 12000)]
-    for fam, prefix in (("ec", "Y"), ("ed", "Z")):
+    for fam, prefix in (("ec", "Y"), ("ed", "Z"), ("pss", "P")):
         fdir = os.path.join(runner.WORK, "pki_C03_" + fam)
         ncert += x509gen.materialise(famsc, fdir, os.path.join(runner.ROOT, "build/certgen"), fam)
         l2, m2 = x509gen.script_lines(famsc, fdir, prefix)
         lines += l2; meta.update(m2)
-    scens = scens + famsc + famsc
+    scens = scens + famsc + famsc + famsc
     nsh = 16
     shards = [lines[i::nsh] for i in range(nsh)]
     jobs = []
